@@ -240,6 +240,24 @@ func (w *worker[T, JobType]) Errs() <-chan error {
 
 // processNextJob processes the next Job in the queue.
 func (w *worker[T, JobType]) processNextJob() error {
+	// Reserve the slot before looking at the status and the queue. Pause and
+	// Stop store the new status first and then wait for curProcessing to reach
+	// zero, so either they see this reservation and wait for the job, or this
+	// step sees the new status and backs out: no job can slip in between.
+	w.curProcessing.Add(1)
+	handedOff := false
+
+	defer func() {
+		if !handedOff {
+			// nothing was dispatched: give the slot back
+			w.releaseWaiters(w.curProcessing.Add(^uint32(0)))
+		}
+	}()
+
+	if w.IsPaused() || w.IsStopped() {
+		return nil
+	}
+
 	queue, err := w.queues.next()
 
 	if err != nil {
@@ -291,8 +309,6 @@ func (w *worker[T, JobType]) processNextJob() error {
 		return nil
 	}
 
-	w.curProcessing.Add(1)
-
 	// in-memory jobs carry no receipt; leaving them untouched keeps the
 	// dispatcher from writing a field their owner may read in Close()
 	if ackId != "" {
@@ -300,6 +316,7 @@ func (w *worker[T, JobType]) processNextJob() error {
 	}
 
 	// then job will be process by the processSingleJob function inside spawnWorker
+	handedOff = true
 	w.sendToNextChannel(j)
 
 	return nil
